@@ -374,6 +374,79 @@ def rand_recipe(r, alphabet, ng=None, nsubs=None, allow_mac=True, allow_symbol=T
     return dict(ng=ng, upem=upem, asc=asc, desc=desc, hadv=hadv, vadv=vadv, vorg=vorg, subs=subs, bbox=bbox, vsb=vsb)
 
 
+# ----------------------------------------------------------------------------------------------
+# the cmap family: fonts whose subtable SELECTION and per-subtable LOOKUP RULES matter (face.rs::find_best_cmap_subtable,
+# get_nominal_glyph): Windows Symbol (3,0) alone / together with any other subtables in any order, MacRoman, the rest
+
+# boundary values (value - 1, value, value + 1 where it makes sense) of every numeric constant of the lookup code:
+# 0x7F (MacRoman transcoding starts above), 0xFF (symbol alias bound), 0xF000 (alias base), 0xFFFF / 0x10000 (u16 views)
+CMAP_EDGES = [0, 1, 0x7E, 0x7F, 0x80, 0x81, 0xFE, 0xFF, 0x100, 0x101,
+              0xEFFF, 0xF000, 0xF001, 0xF07E, 0xF07F, 0xF080, 0xF081, 0xF0FE, 0xF0FF, 0xF100, 0xF101,
+              0xFFFE, 0xFFFF, 0x10000, 0x100FF, 0x1F000, 0x1F0FF, 0x10FFFF]
+CMAP_LOW = list(range(0, 0x102))                       # the aliased block and the two code points above it
+CMAP_DOMAIN = CMAP_LOW + [0xF000 + c for c in CMAP_LOW]
+CMAP_MODES = ["symbol-alone", "symbol-alone", "symbol-with-others", "symbol-with-others", "symbol-with-others",
+              "mac", "no-symbol"]
+
+
+def cmap_family_subs(r, ng, mode=None):
+    """subtable list of one font of the family.  Every subtable gets its OWN random glyph assignment (so the reply tells
+    which subtable was consulted) over the low block U+0000..U+0101 and its image U+F000..U+F101: each low code point is
+    mapped directly / only at U+F000+c / at both (different glyphs) / nowhere, with per-subtable densities from 'none' to
+    'all'; the edge code points are drawn uniformly from the four states."""
+    mode = mode or r.choice(CMAP_MODES)
+    others = [pe for pe in PREF if pe != (3, 0)] + OTHER
+    if mode == "symbol-alone":
+        ids = [(3, 0)]
+    elif mode == "symbol-with-others":
+        ids = [(3, 0)] + [r.choice(others) for _ in range(r.range(1, 3))]
+        if r.chance(1, 6): ids.append((3, 0))            # a second symbol subtable: the first one in table order wins
+    elif mode == "mac":
+        ids = [(1, 0)] + [r.choice(OTHER) for _ in range(r.below(3))]
+    else:
+        ids = [r.choice(others) for _ in range(r.range(1, 3))]
+    ids = r.shuffle(ids)
+    top = max(2, ng - 1)
+    subs = []
+    for p, e in ids:
+        pairs = {}
+        if p == 1:
+            fmt = r.choice([0, 6])
+            dens = r.choice([2, 4, 7, 8])
+            for b in range(256):
+                if b in (0, 0x7E, 0x7F, 0x80, 0x81, 0xFE, 0xFF) and r.chance(3, 4) or r.chance(dens, 8):
+                    pairs[b] = r.range(1, min(top, 255))
+            if fmt == 6 and pairs:
+                lo = r.choice([min(pairs), 0, 0x7F, 0x80]); pairs = {c: g for c, g in pairs.items() if c >= lo}
+            if not pairs: pairs = {0x41: 1}
+        else:
+            fmt = r.choice([4, 12])
+            dd, da = r.choice([0, 1, 4, 7, 8]), r.choice([0, 1, 4, 7, 8])
+            for c in CMAP_LOW:
+                if c in CMAP_EDGES:
+                    k = r.below(4); direct, alias = bool(k & 1), bool(k & 2)
+                else:
+                    direct, alias = r.chance(dd, 8), r.chance(da, 8)
+                g = r.range(1, top)
+                if direct: pairs[c] = g
+                if alias: pairs[0xF000 + c] = g % top + 1 if top > 1 else g      # never the glyph of the direct mapping
+            for c in CMAP_EDGES:
+                if c > 0x101 and not 0xF000 <= c <= 0xF101 and r.chance(1, 2):
+                    if fmt == 4 and c >= 0xFFFF: continue
+                    pairs[c] = r.range(1, top)
+            if not pairs: pairs = {0x41: 1}
+        subs.append((p, e, fmt, sorted(pairs.items())))
+    return mode, subs
+
+
+def cmap_family_recipe(r, mode=None, outlines=False):
+    """a font of the cmap family: metrics as in rand_recipe (hmtx / vmtx / VORG / glyf boxes, short metric tables, ...),
+    glyph count large enough to tell glyphs apart, subtables from cmap_family_subs"""
+    rec = rand_recipe(r, [0x41], ng=r.choice([8, 40, 40, 300]), nsubs=1, outlines=outlines)
+    mode, rec["subs"] = cmap_family_subs(r, rec["ng"], mode)
+    return mode, rec
+
+
 def simple_recipe(alphabet, space=True, ng=None, adv=None, fmt=None, vertical=False):
     """deterministic font: glyph i+1 for the i-th character of the alphabet, one (3,10)/(3,1) subtable."""
     alphabet = [c for c in alphabet if c != 0x20]
